@@ -105,6 +105,75 @@ def determinism(prop, nseeds=40):
     return report
 
 
+def oracle_selfcheck_strings(n=200, seed=3):
+    """the string part of the evaluator against Z3's own folding of the reference term under an assignment"""
+    import z3
+
+    from .gen import STR_SHAPES, StrExprGen
+
+    r = Rng(seed)
+    ctx = S.ref_ctx()
+    bad = []
+    for i in range(n):
+        shape = r.choice(STR_SHAPES)
+        variables = {v[0]: v[1] for v in shape}
+        order = [v[0] for v in shape]
+        domains = {v[0]: v[2] for v in shape if len(v) > 2}
+        eg = StrExprGen(r, variables, None, domains)
+        sp = eg.boolean(2) if i % 2 else eg.sexpr(2)
+        f = S.compile_spec(sp, variables, order)
+        t = S.build_z3ref(sp, variables, ctx)
+        for _ in range(3):
+            vals, sub = [], []
+            for nme in order:
+                w = variables[nme]
+                if w == -1:
+                    v = r.choice(domains[nme])
+                    sub.append((z3.String(nme, ctx), z3.StringVal(v, ctx)))
+                elif w == 0:
+                    v = r.below(2)
+                    sub.append((z3.Bool(nme, ctx), z3.BoolVal(bool(v), ctx)))
+                else:
+                    v = r.below(1 << w)
+                    sub.append((z3.BitVec(nme, w, ctx), z3.BitVecVal(v, w, ctx)))
+                vals.append(v)
+            zv = z3.simplify(z3.substitute(t, *sub))
+            mine = f(*vals)
+            if z3.is_bool(zv):
+                if not (z3.is_true(zv) or z3.is_false(zv)):
+                    continue  # Z3 did not fold it: no verdict
+                if bool(mine) != z3.is_true(zv):
+                    bad.append((sp, vals, mine, str(zv)))
+            elif z3.is_string_value(zv):
+                if mine != zv.as_string():
+                    bad.append((sp, vals, mine, zv.as_string()))
+            elif z3.is_bv_value(zv):
+                if int(mine) != zv.as_long():
+                    bad.append((sp, vals, mine, zv.as_long()))
+    return bad
+
+
+def oracle_selfcheck_wide(n=150, seed=5):
+    """variable-free bit-vector trees at 8..128 bits (the truth templates of C10): evaluator against Z3's folding"""
+    import z3
+
+    from .gen import HistoryGen, PROFILES
+
+    ctx = S.ref_ctx()
+    bad = []
+    for i in range(n):
+        g = HistoryGen(seed * 1000 + i, PROFILES["C10"])
+        for _ in range(4):
+            sp = g.concrete_truth()
+            mine = S.compile_spec(sp, {}, [])()
+            zv = z3.simplify(S.build_z3ref(sp, {}, ctx))
+            if not (z3.is_true(zv) or z3.is_false(zv)):
+                continue
+            if bool(mine) != z3.is_true(zv):
+                bad.append((sp, mine, str(zv)))
+    return bad
+
+
 def main(a):
     what = a.prop
     if what == "selftest-setup":
@@ -113,11 +182,15 @@ def main(a):
         if bad:
             print("HARNESS-ERROR evaluator disagrees with Z3:", bad[:3])
             return 2
-        print("oracle self-check ok (300 trees x 4 assignments)")
+        bad = oracle_selfcheck_strings() + oracle_selfcheck_wide()
+        if bad:
+            print("HARNESS-ERROR string evaluator disagrees with Z3:", bad[:3])
+            return 2
+        print("oracle self-check ok (300 bit-vector / Boolean trees x 4 assignments, 200 string trees x 3 assignments)")
         return rc
     if what == "selftest-oracle":
         t = time.time()
-        bad = oracle_selfcheck(3000, 7)
+        bad = oracle_selfcheck(3000, 7) + oracle_selfcheck_strings(2000, 11) + oracle_selfcheck_wide(1500, 13)
         print("mismatches:", len(bad), bad[:3], f"{time.time() - t:.1f}s")
         return 2 if bad else 0
     if what == "selftest-determinism":
